@@ -538,7 +538,7 @@ fn large_batch_family(run: &Run, thorough: bool) {
         });
         // one conflict inside the large batch: a rival of chain member k (it spends the same coin) placed at position j.  How a large
         // batch is cut into pieces depends on its length and on the pool; whatever the cut, the batch consumes a coin twice
-        if len <= 1100 {
+        if len <= if thorough { 1100 } else { 300 } {
             let sizes = [1usize, 2, 4, 16];
             let lpools: Vec<rayon::ThreadPool> = sizes.iter().map(|n| rayon::ThreadPoolBuilder::new().num_threads(*n).build().unwrap()).collect();
             for k in [3usize, len / 2, len - 2] {
@@ -1026,7 +1026,11 @@ pub fn run(run: &Run) {
     // the one lock-protected structure that validation threads share (the DOSC inflator table): every interleaving, by loom
     crate::loomrun::inflator_interleavings(run, "C03");
     // ... and apply_tx_batch itself, compiled against loom-backed rayon and locks: every parallel site, every cut, every interleaving
-    crate::loomrun::stf_interleavings(run, "C03", &["rivals", "faucet-twice", "chain", "chain-reversed", "shared-second-input", "independent", "faucet-spends-and-rival", "rivals-around-bystander", "two-mints", "two-mints-reversed"]);
+    let mut labs = vec!["rivals", "faucet-twice", "chain", "chain-reversed", "shared-second-input", "independent", "faucet-spends-and-rival", "rivals-around-bystander", "two-mints"];
+    if thorough {
+        labs.push("two-mints-reversed");
+    }
+    crate::loomrun::stf_interleavings(run, "C03", &labs);
     println!("  [phase] loom labs done at {:.1}s", run.elapsed());
     repeatability_sampling(run, thorough);
     println!("  [phase] schedule sampling done at {:.1}s", run.elapsed());
